@@ -245,6 +245,13 @@ def run(ctx):
         '  time.sleep(0.1); println("m", o, n, ob.l, ob.q); }\n',
         ["w 1 Some([1, 2]) [[1], [2]] [5] Some([6])", "w own 1 Some([1, 2, 7]) 2 2 Some([6, 7])",
          "m Some([1, 2, 100]) [[1, 100], [2]] [5, 100] Some([6, 100])"], 2))
+    # empty options inside a by-value argument: every copy has its own cells (a write through one copy's `none` cell reaches
+    # no other copy, in this spawn or a later one)
+    stag.append(plain_prog(
+        'fn w(id: int, l: [?int], o: { a: ?str, b: ?str }) { l[0] = ?id; o.a = ?"set"; println("w", id, l, o.a, o.b); }\n'
+        'fn main() { let a: [?int] = [none, none, none]; let ob: { a: ?str, b: ?str } = new { a: none, b: none }; spawn w(1, a, ob); time.sleep(0.05); spawn w(2, a, ob); time.sleep(0.05);\n'
+        '  let fresh: [?int] = [none]; spawn w(3, fresh, ob); time.sleep(0.05); println("m", a, fresh, ob.a, ob.b); }\n',
+        ["w 1 [Some(1), none, none] Some(set) none", "w 2 [Some(2), none, none] Some(set) none", "w 3 [Some(3)] Some(set) none", "m [none, none, none] [none] none none"], 4))
     # a global range and a global string iterated by several cores at the same time (and by the spawner): every loop
     # has its own cursor, whatever the others do
     stag.append(plain_prog(
